@@ -80,6 +80,10 @@ def build_custom_vdw(vdw_set, vdw_scale=1.0, default_vdw=2.0, vdw_custom={}):
     """Build a custom VdW set"""
 
     vdw_r = np.array(vdw_radii[vdw_set]) * vdw_scale
+    # Elements beyond the end of the table have no tabulated radius either
+    n_elems = max(atomic_numbers.values()) + 1
+    if len(vdw_r) < n_elems:
+        vdw_r = np.concatenate([vdw_r, np.full(n_elems - len(vdw_r), np.nan)])
     vdw_r = np.where(np.isnan(vdw_r), default_vdw, vdw_r)
     for el, r in vdw_custom.items():
         vdw_r[atomic_numbers[el]] = r
